@@ -50,6 +50,30 @@ def runHmmerGene (cut : Int → Option Int) (minScore maxEvalue : Int) (raw : Li
   | [] => .ok []
   | hits => if filterOverlapping then HitFilter.removeOverlapping cut 10 hits else .ok hits
 
+/-- the loci of `results_by_cds` in dict order: first appearance among the hits that pass the cuts -/
+def runHmmerLoci (minScore maxEvalue : Int) (raw : List (Int × RawHmm)) : List Int :=
+  firstOcc ((raw.filter fun r => buildKeep minScore maxEvalue r.2).map (·.1))
+
+/-- one turn of `for locus_hits in results_by_cds.values(): hits.extend(remove_overlapping(locus_hits, cutoffs))`;
+    an exception ends the call -/
+def runHmmerStep (cut : Int → Option Int) (minScore maxEvalue : Int) (raw : List (Int × RawHmm))
+    (acc : Except HErr (List (Int × HHit))) (g : Int) : Except HErr (List (Int × HHit)) :=
+  match acc with
+  | .error e => .error e
+  | .ok out =>
+    match runHmmerGene cut minScore maxEvalue ((raw.filter fun r => r.1 == g).map (·.2)) with
+    | .error e => .error e
+    | .ok hs => .ok (out ++ hs.map fun h => (g, h))
+
+/-- `run_hmmer` on the whole hmmscan output `(locus, HSP)`: without filtering the passing hits in
+    hmmscan order; with filtering locus after locus, the first failing locus aborting the call -/
+def runHmmerRecord (cut : Int → Option Int) (minScore maxEvalue : Int) (raw : List (Int × RawHmm))
+    (filterOverlapping : Bool := true) : Except HErr (List (Int × HHit)) :=
+  if !filterOverlapping then
+    .ok ((raw.filter fun r => buildKeep minScore maxEvalue r.2).map fun r => (r.1, r.2.hit))
+  else
+    (runHmmerLoci minScore maxEvalue raw).foldl (runHmmerStep cut minScore maxEvalue raw) (.ok [])
+
 /-! ### `domain_identification` -/
 
 /-- `find_domains`, one gene of translation length `cdsLength` -/
